@@ -87,4 +87,35 @@ def below : Nat → Tree → Nat → Nat → Bool
 /-- `Group.WaitChildren()` returns iff the group's counter is zero (`Counter.WaitIsZero`). -/
 def waitChildrenReturns (t : Tree) (g : Nat) : Bool := val t g == 0
 
+/-! ## user subscribers of a counter (`Counter.Subscribe` on a pool's `PendingTasksCounter` / a group's
+`PendingChildrenCounter`): an observer is handed every change `(old, new)` of that counter, in order, from its
+subscription until it unsubscribes. -/
+
+structure Sub where
+  node : Nat
+  active : Bool
+  stream : List (Nat × Nat)
+deriving DecidableEq, Repr
+
+/-- one more observation: nothing is reported when the value did not change -/
+def recStep (st : List (Nat × Nat)) (o n : Nat) : List (Nat × Nat) := if o = n then st else st ++ [(o, n)]
+
+/-- what the active subscribers see when the tree goes from `t` to `t'` -/
+def observe (t t' : Tree) (subs : List Sub) : List Sub :=
+  subs.map (fun sb => if sb.active then { sb with stream := recStep sb.stream (val t sb.node) (val t' sb.node) } else sb)
+
+/-- the stream a subscriber records over the successive values `vs` of its counter, starting at `v0` -/
+def recRun : Nat → List Nat → List (Nat × Nat) → List (Nat × Nat)
+  | _, [], st => st
+  | v, w :: ws, st => recRun w ws (recStep st v w)
+
+/-- **the subscriber monitor**: the reported pairs chain up from the value at subscription time — every `old` is the
+previous `new` — and end at `cur`; hence `v0 + Σ (new − old) = cur` (the fold of the deltas is the counter). -/
+def streamOk : Nat → Nat → List (Nat × Nat) → Bool
+  | v, cur, [] => v == cur
+  | v, cur, (o, n) :: rest => o == v && o != n && streamOk n cur rest
+
+def showStream (st : List (Nat × Nat)) : String :=
+  "[" ++ " ".intercalate (st.map (fun p => s!"{p.1}>{p.2}")) ++ "]"
+
 end Hive.WPG
